@@ -806,8 +806,13 @@ func (f *filterQuery) Select(t iterator) NodeNavigator {
 		}
 		node = node.Copy()
 
+		// The predicate is evaluated with the candidate as context node; the
+		// caller's context is put back afterwards.
+		root := t.Current().Copy()
 		t.Current().MoveTo(node)
-		if f.do(t) {
+		ok := f.do(t)
+		t.Current().MoveTo(root)
+		if ok {
 			// fix https://github.com/antchfx/htmlquery/issues/26
 			// Calculate and keep the each of matching node's position in the same depth.
 			level := getNodeDepth(f.Input)
